@@ -215,6 +215,11 @@ def ob_ineq(typ, sys, m, vname):
         px = P.to_stacked_vector()
         ref = clipped_ref(typ, sys, ws, Vs)
         out = [Eq("P(x) == vec(V max(w,0) V†)", px, ref)]
+        # the result carries the operand's own configuration (the operand has on_para_eq_constraint=False while on_algo_eq_constraint keeps
+        # its default True, so a mix-up of the two shows)
+        for attr in ("on_para_eq_constraint", "on_algo_eq_constraint", "on_algo_ineq_constraint", "is_estimation_object", "mode_proj_order"):
+            out.append(Holds(f"result.{attr} == operand.{attr}", getattr(P, attr) == getattr(obj, attr)))
+        out.append(Eq("result.to_var() == its stacked vector (flag False)", P.to_var(), px, 0.0))
         out.append(Eq("operand unchanged", np.array(snapshot(obj.to_stacked_vector()), dtype=object), np.array(before, dtype=object), 0.0))
         # fixes inputs whose spectrum is already non-negative
         allpos = s_and([SBool.of(x >= 0) for w in ws for x in w])
